@@ -549,8 +549,8 @@ func (x *apiExec) invoke(m string, a []string) string {
 	return "bad-method"
 }
 
-// guarded runs f under recover(); a panic becomes the canonical token PANIC <kind>@<first repo/mass-core frame>.
-func guarded(f func()) (pan string) {
+// apiGuarded runs f under recover(); a panic becomes the canonical token PANIC <kind>@<first repo/mass-core frame>.
+func apiGuarded(f func()) (pan string) {
 	defer func() {
 		if r := recover(); r != nil {
 			msg := fmt.Sprint(r)
@@ -593,7 +593,7 @@ func (x *apiExec) call(m string, a []string) string {
 		return "bad-op"
 	}
 	cls := "none"
-	if p := guarded(func() { cls = x.invoke(m, a) }); p != "" {
+	if p := apiGuarded(func() { cls = x.invoke(m, a) }); p != "" {
 		x.last = "panic"
 		return p
 	}
@@ -620,7 +620,7 @@ func (x *apiExec) Exec(a []string) string {
 	ch := make(chan string, 1)
 	go func() {
 		out := ""
-		if p := guarded(func() { out = x.exec1(a) }); p != "" {
+		if p := apiGuarded(func() { out = x.exec1(a) }); p != "" {
 			out = p
 		}
 		ch <- out
@@ -670,7 +670,7 @@ func (x *apiExec) exec1(a []string) string {
 		old := runtime.GOMAXPROCS(1)
 		out := "done"
 		started := false
-		if p := guarded(func() {
+		if p := apiGuarded(func() {
 			if err := e.wm.VerifStartHandlerOnly(); err != nil {
 				panic("harness: Start failed: " + err.Error())
 			}
@@ -683,7 +683,7 @@ func (x *apiExec) exec1(a []string) string {
 		runtime.GOMAXPROCS(old)
 		if started {
 			// NtfnsHandler.Stop: close(quit), wait for both goroutines, close the wallet database
-			guarded(func() { e.wm.Stop() })
+			apiGuarded(func() { e.wm.Stop() })
 			e.wdb = nil
 		}
 		if err := e.Restart(); err != nil {
@@ -698,7 +698,7 @@ func (x *apiExec) exec1(a []string) string {
 		}
 		e.wm.VerifDrainTasks()
 		out := ""
-		if p := guarded(func() { out = errTok(e.wm.VerifRemoveRun(id)) }); p != "" {
+		if p := apiGuarded(func() { out = errTok(e.wm.VerifRemoveRun(id)) }); p != "" {
 			return p
 		}
 		return out
@@ -709,7 +709,7 @@ func (x *apiExec) exec1(a []string) string {
 		}
 		e.wm.VerifDrainTasks()
 		out := ""
-		if p := guarded(func() {
+		if p := apiGuarded(func() {
 			fin, err := e.wm.VerifImportStep(id)
 			switch {
 			case err != nil:
@@ -774,7 +774,7 @@ func (x *apiExec) exec1(a []string) string {
 	}
 	if p := ""; true {
 		out := ""
-		p = guarded(func() { out = ledOp(e, a) })
+		p = apiGuarded(func() { out = ledOp(e, a) })
 		if p != "" {
 			return p
 		}
